@@ -18,7 +18,7 @@ func init() {
 			switch st.Str("op") {
 			case "new":
 			case "write":
-				d := st.Hex("data")
+				d := st.HexMut("data")
 				keep := append([]byte(nil), d...)
 				n, err := objs[st.Int("o")].Write(d)
 				if err != nil || n != len(d) {
@@ -28,6 +28,7 @@ func init() {
 					mm.Note = "Write modified its argument"
 					return mm
 				}
+				Reuse(d) // Write must not retain p
 				if st.Has("exp") {
 					if mm := Diff(i, objs[st.Int("o")].Sum(nil), st.Hex("exp")); mm != nil {
 						mm.Note = "digest after this write"
